@@ -391,6 +391,59 @@ func aliasSel(fn *Func, e ast.Expr) string {
 	return ""
 }
 
+// paramsAsArgs: e with each parameter of the (unexported, never-escaping) enclosing helper
+// replaced by the argument expression that all of its call sites pass for it (same text at
+// every site); nil if nothing was replaced.
+func paramsAsArgs(fn *Func, e ast.Expr) ast.Expr {
+	root := rootOf(fn)
+	if root.Obj == nil {
+		return nil
+	}
+	sites := inheritSites(fn)
+	if len(sites) == 0 {
+		return nil
+	}
+	sig := root.Obj.Type().(*types.Signature)
+	info := fn.Info()
+	out := e
+	changed := false
+	for i := 0; i < sig.Params().Len(); i++ {
+		pv := sig.Params().At(i)
+		mentioned := false
+		ast.Inspect(e, func(z ast.Node) bool {
+			if id, ok := z.(*ast.Ident); ok && info.ObjectOf(id) == pv {
+				mentioned = true
+			}
+			return !mentioned
+		})
+		if !mentioned {
+			continue
+		}
+		var arg ast.Expr
+		same := true
+		for _, cs := range sites {
+			if i >= len(cs.call.Args) {
+				same = false
+				break
+			}
+			if arg == nil {
+				arg = cs.call.Args[i]
+			} else if exprStr(arg) != exprStr(cs.call.Args[i]) {
+				same = false
+			}
+		}
+		if !same || arg == nil {
+			continue
+		}
+		out = substExpr(out, pv, arg, info)
+		changed = true
+	}
+	if !changed {
+		return nil
+	}
+	return out
+}
+
 // constFold: e with identifiers of module-declared basic constants replaced by their
 // literal values (`attr.Name == countAttrName` reads `attr.Name == "count"`).
 func constFold(fn *Func, e ast.Expr) ast.Expr {
@@ -555,6 +608,10 @@ func atomMatches(fn *Func, a *Atom, g guard) bool {
 	case gCmp:
 		if be0, ok := e.(*ast.BinaryExpr); ok {
 			if sameText(fn, cmpText(e), g.name) {
+				return a.Pol == g.pol
+			}
+			// inside an extracted helper: parameters stand for the arguments every call site passes
+			if pe := paramsAsArgs(fn, be0); pe != nil && sameText(fn, cmpText(pe), g.name) {
 				return a.Pol == g.pol
 			}
 			// named constants of the module stand for their values
